@@ -714,11 +714,14 @@ pub fn sample_lines() -> Vec<String> {
     let txs = canned_txs();
     let mut v = vec!["case Zs".to_string(), "setup 2".to_string()];
     for (id, _) in &txs {
-        let mut d = sel("getLastSatLocation(bytes32,uint256,uint256)");
-        d.extend(hex::decode(id).unwrap());
-        d.extend(abi_word(0));
-        d.extend(abi_word(5));
-        v.push(format!("z {}", json!({"jsonrpc": "2.0", "id": 1, "method": "eth_call", "params": [{"to": "0x00000000000000000000000000000000000000fc", "data": format!("0x{}", hex::encode(d))}]})));
+        // a satoshi inside the first output, one far beyond what the inputs carry, and the same in the other outputs
+        for (vout, sat) in [(0u64, 5u64), (0, 1_000_000), (1, 5), (1, 1_000_000), (2, 1_000_000), (3, 0)] {
+            let mut d = sel("getLastSatLocation(bytes32,uint256,uint256)");
+            d.extend(hex::decode(id).unwrap());
+            d.extend(abi_word(vout));
+            d.extend(abi_word(sat));
+            v.push(format!("z {}", json!({"jsonrpc": "2.0", "id": 1, "method": "eth_call", "params": [{"to": "0x00000000000000000000000000000000000000fc", "data": format!("0x{}", hex::encode(d))}]})));
+        }
         let mut d = sel("getTxDetails(bytes32)");
         d.extend(hex::decode(id).unwrap());
         v.push(format!("z {}", json!({"jsonrpc": "2.0", "id": 1, "method": "eth_call", "params": [{"to": "0x00000000000000000000000000000000000000fd", "data": format!("0x{}", hex::encode(d))}]})));
